@@ -23,7 +23,7 @@ SHARDS = {"quick": 8, "thorough": 16}
 DECIDING = ["blur_is_centred_convolution", "impulse_response", "mass_scaled", "fft_restore_normal_equations", "matrix_restore_equals_fft",
             "dense_builder_is_operator", "csr_builder_is_operator", "restore_linear", "channels_independent", "lambda0_inverts",
             "psf_generator_wellformed", "input_unchanged"]
-MUST_REACH = ["kernel:smaller_than_image", "kernel:same_size_as_image", "kernel:even", "kernel:asymmetric", "kernel:1x1", "image:non_square",
+MUST_REACH = ["history:same_taps_other_shape", "history:same_kernel_other_image", "history:kernel_updated_in_place", "kernel:smaller_than_image", "kernel:same_size_as_image", "kernel:even", "kernel:asymmetric", "kernel:1x1", "image:non_square",
               "lambda:zero"]
 
 C = 1e3
@@ -49,6 +49,11 @@ def cases(tier, seed):
             for k in range(8 if tier == "quick" else 24):
                 out.append({"kind": "img", "cls": "square" if H == W else "non_square", "H": H, "W": W, "idx": idx, "seed": seed})
                 idx += 1
+    # call histories inside one process: kernels with identical taps but different shapes (1xL, Lx1, axb), the same kernel on
+    # different image sizes, and a kernel updated in place between two calls
+    for k in range(12 if tier == "quick" else 80):
+        out.append({"kind": "history", "cls": "history", "idx": idx, "seed": seed, "maxd": maxd})
+        idx += 1
     for k in range(30 if tier == "quick" else 200):
         out.append({"kind": "psfgen", "cls": "psf_generators", "idx": idx, "seed": seed})
         idx += 1
@@ -56,7 +61,7 @@ def cases(tier, seed):
 
 
 def run_case(spec, ctx, R):
-    {"img": _img, "psfgen": _psfgen}[spec["kind"]](spec, ctx, R)
+    {"img": _img, "psfgen": _psfgen, "history": _history}[spec["kind"]](spec, ctx, R)
 
 
 def _kernel(rng, Q, H, W, idx):
@@ -254,3 +259,55 @@ def _psfgen(spec, ctx, R):
     ctx.distinct(site, det)
     ok = psf.shape == shape and np.all(psf >= 0) and abs(float(psf.sum()) - 1.0) <= 1e-12 and extra
     ctx.check("psf_generator_wellformed", bool(ok), site=site, detail={**det, "shape": psf.shape, "sum": float(psf.sum())})
+
+
+def _check_pair(ctx, Q, X, psf, lam, site, tags, det):
+    """Blur and FFT restoration of one (image, kernel) pair against the definition (used by the history cases)."""
+    H, W = X.shape[:2]
+    N = H * W
+    logf = np.log2(N + 1) + 1
+    p1, xinf = float(np.abs(psf).sum()), float(np.abs(X).max())
+    B = Q.apply_blur_fft(X, psf)
+    ref = np.stack([conv.conv2_periodic_centred(X[..., c], psf) for c in range(4)], axis=-1)
+    ctx.check("blur_is_centred_convolution", float(np.abs(B - ref).max()), C * EPS * logf * p1 * max(xinf, 1e-300) + 1e-300, site=site, tags=tags, detail=det)
+    A = conv.bccb_matrix(psf, H, W)
+    sv = np.linalg.svd(A, compute_uv=False)
+    a2 = float(sv[0] ** 2)
+    T = A.T @ A + lam * np.eye(N)
+    kapT = (a2 + lam) / max(float(sv[-1] ** 2) + lam, 1e-300)
+    Xr = Q.qslst_restore_fft(ref, psf, lam)
+    res = max(float(np.abs(T @ Xr[..., c].reshape(-1) - A.T @ ref[..., c].reshape(-1)).max()) for c in range(4))
+    ctx.check("fft_restore_normal_equations", res, C * EPS * N * logf * (a2 + lam) * max(float(np.abs(Xr).max()), 1e-300) * kapT + 1e-300,
+              site=site, tags=tags, detail={**det, "lambda": lam})
+
+
+def _history(spec, ctx, R):
+    Q = R.qslst
+    rng = gen.rng_for(spec["seed"], "c17hist", spec["idx"])
+    L = int(rng.choice([2, 3, 4, 6]))
+    H, W = int(rng.integers(L, spec["maxd"] + 1)) if L <= spec["maxd"] else L, int(rng.integers(L, spec["maxd"] + 1)) if L <= spec["maxd"] else L
+    taps = rng.random(L)
+    taps /= taps.sum()
+    shapes = [(a, L // a) for a in range(1, L + 1) if L % a == 0]
+    X = rng.standard_normal((H, W, 4))
+    lam = float(rng.choice([1e-2, 0.5]))
+    ctx.distinct("history", X, taps)
+    seq = shapes + [shapes[0]]
+    for si, (a, b) in enumerate(seq):
+        psf = np.ascontiguousarray(taps.reshape(a, b))
+        ctx.hit("history:same_taps_other_shape")
+        _check_pair(ctx, Q, X, psf, lam, "history:same_taps_other_shape", [f"kernel={a}x{b}", f"step={si}"],
+                    {"image": [H, W], "kernel": [a, b], "sequence": [list(s_) for s_ in seq], "step": si})
+    # the same kernel on another image size, and back
+    psf = np.ascontiguousarray(taps.reshape(shapes[-1]))
+    H2, W2 = H + 1, max(1, W - 1) if W - 1 >= shapes[-1][1] else W + 2
+    for si, (hh, ww) in enumerate([(H, W), (H2, W2), (H, W)]):
+        ctx.hit("history:same_kernel_other_image")
+        _check_pair(ctx, Q, rng.standard_normal((hh, ww, 4)), psf, lam, "history:same_kernel_other_image", [f"step={si}"],
+                    {"image": [hh, ww], "kernel": list(psf.shape), "step": si})
+    # the caller updates the kernel array in place between two calls (same object, new taps)
+    psf2 = psf.copy()
+    _check_pair(ctx, Q, X, psf2, lam, "history:kernel_updated_in_place", ["step=0"], {"image": [H, W], "kernel": list(psf2.shape)})
+    psf2[...] = psf2[::-1, ::-1] * 0.5 + 0.1
+    ctx.hit("history:kernel_updated_in_place")
+    _check_pair(ctx, Q, X, psf2, lam, "history:kernel_updated_in_place", ["step=1"], {"image": [H, W], "kernel": list(psf2.shape)})
